@@ -19,7 +19,7 @@ func HandWritten() []*Case {
 	}
 	_ = withSub
 	gen := "type Gen[T any] struct {\n\tV T\n\tOk bool\n}\n"
-	return []*Case{
+	out := []*Case{
 		mk("h01", "one-letter-union", "ph01", "type I interface{ isI() }\ntype A struct{ X int }\nfunc (A) isI() {}\ntype W struct{ V I }\n", ""),
 		mk("h02", "short-package-name", "ab", "type S struct{ X int; Y []string }\n", ""),
 		mk("h03", "multi-name-const-spec", "ph03", "type E int\nconst C, D E = 5, 6\ntype S struct{ V E }\n", ""),
@@ -43,9 +43,76 @@ func HandWritten() []*Case {
 		mk("h23", "enum-placeholder-undeclared-type", "ph23", "// gomacro:SQL ADD CHECK (V = #[Nope.X])\ntype T struct{ Id int64; V int }\n", ""),
 		mk("h24", "enum-placeholder-unknown-member", "ph24", "type E int\nconst EA E = 1\n// gomacro:SQL ADD CHECK (V = #[E.Nope])\ntype T struct{ Id int64; V E }\n", ""),
 		mk("h25", "embedded-struct-in-union-cycle", "ph25", "type S1 struct{ A int }\ntype U1 interface{ isU1() }\nfunc (S1) isU1() {}\ntype S3 struct {\n\tF []U1\n\tS1\n}\ntype S4 struct {\n\tB string\n\tS3\n}\n", ""),
+		mk("h26", "alias-of-union", "ph26", "type Shape interface{ isShape() }\ntype Circle struct{ R float64 }\nfunc (Circle) isShape() {}\ntype Square struct{ A float64 }\nfunc (Square) isShape() {}\ntype Form = Shape\ntype Drawing struct {\n\tMain Form\n\tOther Shape\n\tC Circle\n}\n", ""),
+		mk("h27", "alias-used-as-field", "ph27", "type S struct{ X int }\ntype AS = S\ntype AL = []S\ntype W struct {\n\tA AS\n\tB AL\n\tC map[string]AS\n}\n", ""),
+		mk("h28", "generic-embedding-struct-two-instances", "ph28", "type W struct {\n\tA Page[int]\n\tB Page[string]\n\tC Page[Nb]\n}\ntype Nb int\n", "type Meta struct {\n\tId int `json:\"id\"`\n\tRev int\n}\ntype Page[T any] struct {\n\tMeta\n\tItems []T\n}\n"),
+		mk("h29", "three-level-embedding", "ph29", "type Timestamps struct{ Created, Updated int64 }\ntype Record struct {\n\tTimestamps\n\tId int64\n}\ntype User struct {\n\tRecord\n\tName string\n}\ntype Admin struct {\n\tUser\n\tLevel int\n}\n", ""),
+		mk("h30", "promoted-marker-method", "ph30", "type Shape interface{ isShape(); area() }\ntype base struct{}\nfunc (base) isShape() {}\ntype Circle struct {\n\tbase\n\tR float64\n}\nfunc (Circle) area() {}\ntype Dot struct{ base }\nfunc (Dot) area() {}\ntype W struct{ S Shape }\n", ""),
+		mk("h31", "id-after-unexported-fields", "ph31", "type IdAccount int64\ntype Account struct {\n\tdirty bool\n\tversion int\n\tName string\n\tId IdAccount\n}\ntype Entry struct {\n\tnote string\n\tIdAccount IdAccount\n\tID int64\n}\n", ""),
 		withSub(mk("h21", "short-imported-package-name", "ph21", "type S struct{ V ab.T; W ab.N }\n", ""), "ab", "type T struct{ X int }\ntype N int\n"),
 		withSub(mk("h22", "two-letter-imported-package-name", "ph22", "type S struct{ V p2.T }\n", ""), "p2", "type T struct{ X string }\n"),
 	}
+	out = append(out, RecursionShapes()...)
+	out = append(out, SameNamedPackages()...)
+	return out
+}
+
+// RecursionShapes returns one program per way a type can refer to itself (termination of the analysis).
+func RecursionShapes() []*Case {
+	shapes := []struct{ name, src string }{
+		{"slice", "type R []R\n"},
+		{"struct-slice", "type R struct{ Kids []R }\n"},
+		{"struct-map", "type R struct{ Kids map[string]R }\n"},
+		{"struct-array-slice", "type R struct{ Kids [2][]R }\n"},
+		{"named-map", "type R map[string]R\n"},
+		{"named-map-slice", "type R map[string][]R\n"},
+		{"array-of-slices", "type R [2][]R\n"},
+		{"array-pointer", "type R [2]*R\n"},
+		{"array-array-pointer", "type R [2][2]*R\n"},
+		{"slice-pointer", "type R []*R\n"},
+		{"map-pointer-key", "type R map[*R]int\n"},
+		{"map-pointer-elem", "type R map[string]*R\n"},
+		{"struct-pointer", "type R struct{ Next *R }\n"},
+		{"mutual-structs", "type A struct{ Bs []B }\ntype B struct{ As map[string]A }\n"},
+		{"mutual-named", "type A []B\ntype B map[string]A\n"},
+		{"union-member-in-own-key", "type Key interface{ isKey() }\ntype Registry map[Key]string\nfunc (Registry) isKey() {}\ntype W struct{ R Registry }\n"},
+		{"union-member-list-of-union", "type U interface{ isU() }\ntype L []U\nfunc (L) isU() {}\ntype M map[string]U\nfunc (M) isU() {}\n"},
+		{"union-struct-cycle", "type U interface{ isU() }\ntype N struct{ Kids []U }\nfunc (N) isU() {}\n"},
+		{"embedded-cycle-through-slice", "type A struct {\n\tB\n\tX int\n}\ntype B struct{ As []A }\n"},
+	}
+	var out []*Case
+	for i, sh := range shapes {
+		id := "rec" + string(rune('a'+i))
+		c := &Case{ID: id, Feat: []string{"hand:recursion:" + sh.name}}
+		c.Main = &Pkg{Name: "p" + id, Imports: map[string]string{}}
+		c.Main.Files = []*File{{Name: "defs.go", Decls: []*Decl{{Kind: "raw", Name: sh.name, Text: sh.src}}}}
+		out = append(out, c)
+	}
+	return out
+}
+
+// SameNamedPackages: two imported packages with the same package name (and the same type names).
+func SameNamedPackages() []*Case {
+	c := &Case{ID: "samepkg", Feat: []string{"hand:same-package-name"}}
+	c.Main = &Pkg{Name: "psame", Imports: map[string]string{}}
+	body := "type Item struct{ X int }\ntype Kind int\nconst (\n\tKA Kind = iota\n\tKB\n)\ntype U interface{ isU() }\nfunc (Item) isU() {}\n"
+	a := &Pkg{Dir: "a/model", Name: "model", Files: []*File{{Name: "m.go", Decls: []*Decl{{Kind: "raw", Name: "m", Text: body}}}}}
+	b := &Pkg{Dir: "b/model", Name: "model", Files: []*File{{Name: "m.go", Decls: []*Decl{{Kind: "raw", Name: "m", Text: body + "type Extra struct{ Y string }\n"}}}}}
+	c.Subs = []*Pkg{a, b}
+	c.Main.Imports["amodel"] = c.PkgPath(a)
+	c.Main.Imports["bmodel"] = c.PkgPath(b)
+	c.Main.Files = []*File{{Name: "defs.go", Decls: []*Decl{{Kind: "raw", Name: "T", Text: "type T struct {\n\tSold []amodel.Item\n\tBought []bmodel.Item\n\tKa amodel.Kind\n\tKb bmodel.Kind\n\tMa map[string]amodel.Item\n\tMb map[string]bmodel.Item\n\tUa amodel.U\n\tUb bmodel.U\n\tE bmodel.Extra\n}\n"}}}}
+	// import diamond with a constant of a foreign type
+	d := &Case{ID: "diamond", Feat: []string{"hand:import-diamond-foreign-const"}}
+	d.Main = &Pkg{Name: "pdiamond", Imports: map[string]string{}}
+	kinds := &Pkg{Dir: "kinds", Name: "kinds", Files: []*File{{Name: "k.go", Decls: []*Decl{{Kind: "raw", Name: "k", Text: "type Kind int\nconst (\n\tSmall Kind = iota\n\tMedium\n\tLarge\n)\n"}}}}}
+	extra := &Pkg{Dir: "extra", Name: "extra", Imports: map[string]string{}, Files: []*File{{Name: "e.go", Decls: []*Decl{{Kind: "raw", Name: "e", Text: "const Default kinds.Kind = 10\ntype E struct{ K kinds.Kind }\n"}}}}}
+	d.Subs = []*Pkg{kinds, extra}
+	extra.Imports["kinds"] = d.PkgPath(kinds)
+	d.Main.Imports["kinds"] = d.PkgPath(kinds)
+	d.Main.Imports["extra"] = d.PkgPath(extra)
+	d.Main.Files = []*File{{Name: "defs.go", Decls: []*Decl{{Kind: "raw", Name: "T", Text: "type T struct {\n\tK kinds.Kind\n\tE extra.E\n}\n"}}}}
+	return []*Case{c, d}
 }
 
 // ManyImports returns programs whose types come from several packages (so that the import lists
